@@ -26,10 +26,14 @@ Import ListNotations.
 (* subscription row: only the columns Save writes *)
 Record sub_c16b := { sb_topic : N; sb_user : N; sb_recv : N; sb_read : N }.
 
+(* the adapter calls Save can make, as memverif's call log names them *)
+Inductive call_c16b := CTopicUpdateOnMessage | CMessageSave | CSubsUpdate | CFileLinkAttachments.
+
 Record sstate_c16b := {
   sv_fs : state;                   (* uploads, link rows, message rows, topics, users, bytes (Sys/Files.v) *)
   sv_seq : list (N * N);           (* topics.seqid by topic *)
-  sv_subs : list sub_c16b          (* subscriptions *)
+  sv_subs : list sub_c16b;         (* subscriptions *)
+  sv_calls : list (call_c16b * bool)   (* ghost: the adapter calls made so far, true = made to fail by the fault plan *)
 }.
 
 (* types.Message as Save reads it.  From is asUid.String(); types.ParseUid of that text gives the
@@ -43,46 +47,58 @@ Definition no_faults_c16b : save_faults :=
   {| ff_topic := false; ff_msg := false; ff_subs := false; ff_link := false |}.
 
 Definition with_fs_c16b (s : sstate_c16b) (f : state) : sstate_c16b :=
-  {| sv_fs := f; sv_seq := sv_seq s; sv_subs := sv_subs s |}.
+  {| sv_fs := f; sv_seq := sv_seq s; sv_subs := sv_subs s; sv_calls := sv_calls s |}.
+
+(* every adapter call is logged first (memverif: begin()), then fails as planned or runs *)
+Definition log_c16b (s : sstate_c16b) (c : call_c16b) (fault : bool) : sstate_c16b :=
+  {| sv_fs := sv_fs s; sv_seq := sv_seq s; sv_subs := sv_subs s; sv_calls := sv_calls s ++ [(c, fault)] |}.
+
+(* The four calls: the result is the new state and [true] iff the call returned an error; a call that
+   returns an error changes nothing but the log (each call is one transaction). *)
 
 (* adp.TopicUpdateOnMessage(msg.Topic, msg) *)
-Definition topic_update_on_message_c16b (fault : bool) (s : sstate_c16b) (m : msg_c16b) : option sstate_c16b :=
-  if fault then None
-  else Some {| sv_fs := sv_fs s;
-               sv_seq := map (fun p => if (fst p =? mg_topic m)%N then (fst p, mg_seq m) else p) (sv_seq s);
-               sv_subs := sv_subs s |}.
+Definition topic_update_on_message_c16b (fault : bool) (s0 : sstate_c16b) (m : msg_c16b) : sstate_c16b * bool :=
+  let s := log_c16b s0 CTopicUpdateOnMessage fault in
+  if fault then (s, true)
+  else ({| sv_fs := sv_fs s;
+           sv_seq := map (fun p => if (fst p =? mg_topic m)%N then (fst p, mg_seq m) else p) (sv_seq s);
+           sv_subs := sv_subs s; sv_calls := sv_calls s |}, false).
 
 (* adp.MessageSave(msg): the row gets the next AUTO_INCREMENT id (msg.SetUid(id)) *)
-Definition message_save_c16b (fault : bool) (s : sstate_c16b) (m : msg_c16b) : option sstate_c16b :=
-  if fault then None
-  else if negb (memN (mg_topic m) (topics (sv_fs s))) then None          (* FOREIGN KEY(topic) *)
+Definition message_save_c16b (fault : bool) (s0 : sstate_c16b) (m : msg_c16b) : sstate_c16b * bool :=
+  let s := log_c16b s0 CMessageSave fault in
+  if fault then (s, true)
+  else if negb (memN (mg_topic m) (topics (sv_fs s))) then (s, true)          (* FOREIGN KEY(topic) *)
   else
     let f := sv_fs s in
     let mid := next_mid f in
-    Some (with_fs_c16b s
+    (with_fs_c16b s
       {| files := files f; links := links f; msgs := (mid, mg_topic m) :: msgs f; next_mid := N.succ mid;
-         topics := topics f; users := users f; disk := disk f; att := att f |}).
+         topics := topics f; users := users f; disk := disk f; att := att f |}, false).
 
 (* adp.SubsUpdate(topic, uid, {RecvSeqId: seq, ReadSeqId: seq}) *)
-Definition subs_update_c16b (fault : bool) (s : sstate_c16b) (topic uid seq : N) : option sstate_c16b :=
-  if fault then None
-  else Some {| sv_fs := sv_fs s; sv_seq := sv_seq s;
-               sv_subs := map (fun r =>
-                 if (sb_topic r =? topic)%N && ((uid =? 0)%N || (sb_user r =? uid)%N)
-                 then {| sb_topic := sb_topic r; sb_user := sb_user r; sb_recv := seq; sb_read := seq |}
-                 else r) (sv_subs s) |}.
+Definition subs_update_c16b (fault : bool) (s0 : sstate_c16b) (topic uid seq : N) : sstate_c16b * bool :=
+  let s := log_c16b s0 CSubsUpdate fault in
+  if fault then (s, true)
+  else ({| sv_fs := sv_fs s; sv_seq := sv_seq s;
+           sv_subs := map (fun r =>
+             if (sb_topic r =? topic)%N && ((uid =? 0)%N || (sb_user r =? uid)%N)
+             then {| sb_topic := sb_topic r; sb_user := sb_user r; sb_recv := seq; sb_read := seq |}
+             else r) (sv_subs s);
+           sv_calls := sv_calls s |}, false).
 
 (* adp.FileLinkAttachments("", ZeroUid, msg.Uid(), attachments) *)
-Definition file_link_msg_c16b (fault : bool) (s : sstate_c16b) (mid : N) (fids : list N) : option sstate_c16b :=
-  if fault then None
-  else if negb (memN mid (map fst (msgs (sv_fs s)))) then None           (* FOREIGN KEY(msgid) *)
-  else if negb (forallb (fun f => memN f (file_ids (sv_fs s))) fids) then None   (* FOREIGN KEY(fileid): rolled back *)
+Definition file_link_msg_c16b (fault : bool) (s0 : sstate_c16b) (mid : N) (fids : list N) : sstate_c16b * bool :=
+  let s := log_c16b s0 CFileLinkAttachments fault in
+  if fault then (s, true)
+  else if negb (memN mid (map fst (msgs (sv_fs s)))) then (s, true)           (* FOREIGN KEY(msgid) *)
+  else if negb (forallb (fun f => memN f (file_ids (sv_fs s))) fids) then (s, true)   (* FOREIGN KEY(fileid): rolled back *)
   else
     let f := sv_fs s in
-    Some (with_fs_c16b s
+    (with_fs_c16b s
       {| files := files f; links := links f ++ map (fun x => (x, TMsg mid)) fids;
          msgs := msgs f; next_mid := next_mid f; topics := topics f; users := users f; disk := disk f;
-         att := att f ++ map (fun x => (x, TMsg mid)) (filter (fun x => is_done x (files f)) fids) |}).
+         att := att f ++ map (fun x => (x, TMsg mid)) (filter (fun x => is_done x (files f)) fids) |}, false).
 
 (* Go's (error, bool) result: [sr_err] = an error is returned, [sr_marked] = markedReadBySender *)
 Record save_result := { sr_err : bool; sr_marked : bool }.
@@ -94,13 +110,15 @@ Definition save_c16b (ft : save_faults) (handler : bool) (serve : list N)
     : sstate_c16b * save_result :=
   (* msg.InitTimes(); msg.SetUid(Store.GetUid()) - replaced by the database id in MessageSave *)
   (* err := adp.TopicUpdateOnMessage(msg.Topic, msg); if err != nil { return err, false } *)
-  match topic_update_on_message_c16b (ff_topic ft) s m with
-  | None => (s, {| sr_err := true; sr_marked := false |})
-  | Some s1 =>
+  let r1 := topic_update_on_message_c16b (ff_topic ft) s m in
+  let s1 := fst r1 in
+  if snd r1 then (s1, {| sr_err := true; sr_marked := false |})
+  else
     (* err = adp.MessageSave(msg); if err != nil { return err, false } *)
-    match message_save_c16b (ff_msg ft) s1 m with
-    | None => (s1, {| sr_err := true; sr_marked := false |})
-    | Some s2 =>
+    let r2 := message_save_c16b (ff_msg ft) s1 m in
+    let s2 := fst r2 in
+    if snd r2 then (s2, {| sr_err := true; sr_marked := false |})
+    else
       let mid := next_mid (sv_fs s1) in                   (* msg.Uid() from here on *)
       (* markedReadBySender := false
          if readBySender { fromUid := types.ParseUid(msg.From); if !fromUid.IsZero() {
@@ -109,10 +127,8 @@ Definition save_c16b (ft : save_faults) (handler : bool) (serve : list N)
         if read_by_sender then
           let from_uid := mg_from m in
           if negb (from_uid =? 0)%N then
-            match subs_update_c16b (ff_subs ft) s2 (mg_topic m) from_uid (mg_seq m) with
-            | None => (s2, false)                          (* the error is ignored *)
-            | Some s3 => (s3, true)
-            end
+            let r3 := subs_update_c16b (ff_subs ft) s2 (mg_topic m) from_uid (mg_seq m) in
+            (fst r3, negb (snd r3))                        (* the error is ignored *)
           else (s2, false)
         else (s2, false) in
       let s3 := fst sm in
@@ -123,16 +139,12 @@ Definition save_c16b (ft : save_faults) (handler : bool) (serve : list N)
         let attachments := resolve serve urls in
         (* if len(attachments) > 0 { return adp.FileLinkAttachments(...), markedReadBySender } *)
         if negb (length attachments =? 0)%nat then
-          match file_link_msg_c16b (ff_link ft) s3 mid attachments with
-          | None => (s3, {| sr_err := true; sr_marked := marked |})
-          | Some s4 => (s4, {| sr_err := false; sr_marked := marked |})
-          end
+          let r4 := file_link_msg_c16b (ff_link ft) s3 mid attachments in
+          (fst r4, {| sr_err := snd r4; sr_marked := marked |})
         else (s3, {| sr_err := false; sr_marked := marked |})
       else
         (* return nil, markedReadBySender *)
-        (s3, {| sr_err := false; sr_marked := marked |})
-    end
-  end.
+        (s3, {| sr_err := false; sr_marked := marked |}).
 
 (* ------------------------------------------------------------------ *)
 (* Topic.saveAndBroadcastMessage up to the point where Save has returned (topic.go:966-1003)   *)
